@@ -191,7 +191,11 @@ func windowScenario(policy vs.Policy, f int) *explore.Scenario {
 	if policy == vs.Nondet {
 		name = fmt.Sprintf("window/nondet-f%d", f)
 	}
-	return &explore.Scenario{Name: name, C: 0, F: f, DataOnly: policy == vs.Quiescent, Opts: vs.Options{Time: policy, TimeHorizon: int64(10 * time.Second)}, Body: func() {
+	c := 0
+	if policy == vs.Nondet {
+		c = 1 // an arrival may fall between two critical sections of a clean-up sweep
+	}
+	return &explore.Scenario{Name: name, C: c, F: f, DataOnly: policy == vs.Quiescent, Opts: vs.Options{Time: policy, TimeHorizon: int64(10 * time.Second)}, Body: func() {
 		d := newDedup()
 		calls := 0
 		h := d.Middleware(func(m *message.Message) ([]*message.Message, error) { calls++; return nil, nil })
